@@ -138,6 +138,16 @@ theorem routers_share_the_logic :
        ("eth", "verifyMerkleProof"), ("eth", "checkProofResult")] := by
   constructor <;> decide
 
+/-- The quorum router (the header arrives with the deposit and is accepted by the validator-signature check, C29/C30):
+its proof check accepts exactly when the proof has one storage proof, names the registered contract, the account and
+storage proofs verify against THAT header's state root and the proven value is the hash of the message. -/
+theorem quorum_proof_check_iff (K : Bytes → Bytes) (vp : Bytes → Bytes → List Bytes → VpRes) (rt ccmc : Bytes)
+    (proof : Option EthProof) (extra : Bytes) :
+    verifyFromQuorumTx K vp rt ccmc proof extra = .ok () ↔
+      ∃ p v, proof = some p ∧ MerkleFacts K vp p rt ccmc (.val v) ∧
+        ∃ w, rlpDecodeString v = some w ∧ List.replicate (32 - w.length) (0 : UInt8) ++ w = K extra :=
+  verifyFromQuorumTx_ok_iff K vp rt ccmc proof extra
+
 /-! ## Non-vacuity -/
 
 private def blkA : Hdr Nat Bytes := ⟨1, 0, 100, 5, [0xaa]⟩
